@@ -193,7 +193,7 @@ package websocket
 // Footprints (textual macros).
 //@ define RDFP ghrd(c.br).pos, c.readHeaderBuf, c.readControlBuf, chanstate(c.readTimeout)
 //@ define WRFP ghwr(c.bw).pos, ghwr(c.bw).out, ghwr(c.bw).buffered, ghrd(specRand()).pos, c.writeHeader, c.writeHeaderBuf, bytes(c.writeBuf), chanstate(c.writeTimeout), chanstate(c.writeFrameMu.ch), c.closeSent
-//@ define CLFP chanstate(c.closed), chanstate(c.readMu.ch), chanstate(c.msgWriter.writeMu.ch), c.br, c.msgReader.flateReader, c.msgReader.dict, c.msgWriter.flateWriter
+//@ define CLFP chanstate(c.closed), chanstate(c.readMu.ch), chanstate(c.msgWriter.writeMu.ch), c.br, c.msgReader.flateReader, c.msgReader.dict, c.msgWriter.flateWriter, c.closeReceived
 
 // Write-side and close-side callees of the read path. Their contracts are stated here
 // and proved against their bodies further below (write.go / close.go sections).
@@ -268,6 +268,10 @@ package websocket
 //@ ensures [consumed] err == nil ==> ghrd(c.br).pos == old(ghrd(c.br).pos) + int(h.payloadLength)
 //@ ensures [close-code] h.opcode == opClose && errIsCE(err) && h.payloadLength >= 2 ==> int(errCECode(err)) == specBE16(rdin(old(c.br), old(ghrd(c.br).pos)) ^ specMaskByte(h.maskKey, 0)&specBit(h.masked, 0xff), rdin(old(c.br), old(ghrd(c.br).pos)+1) ^ specMaskByte(h.maskKey, 1)&specBit(h.masked, 0xff))
 //@ ensures [close-empty] h.opcode == opClose && errIsCE(err) && h.payloadLength == 0 ==> errCECode(err) == StatusNoStatusRcvd
+//@ ensures [pong] {C15} h.opcode == opPing && err == nil ==> specFrameHeaderOK(c.writeHeader, c.client, true, false, opPong, int(h.payloadLength)) && ghwr(c.bw).pos == old(ghwr(c.bw).pos)+specHdrLen(c.writeHeader)+int(h.payloadLength)
+//@ ensures [pong-payload] {C15} h.opcode == opPing && err == nil && !c.client ==> forall(0, int(h.payloadLength), func(k int) bool { return ghwr(c.bw).out[old(ghwr(c.bw).pos)+specHdrLen(c.writeHeader)+k] == rdin(old(c.br), old(ghrd(c.br).pos)+k) ^ specMaskByte(h.maskKey, k)&specBit(h.masked, 0xff) })
+//@ ensures [pong-silent] {C15} h.opcode == opPong && err == nil ==> ghwr(c.bw).pos == old(ghwr(c.bw).pos)
+//@ ensures [legal-size-accepted] {C15 C03} h.fin && 0 < h.payloadLength && h.payloadLength <= 125 && ghrd(old(c.br)).pos == old(ghrd(c.br).pos) ==> ghwr(c.bw).pos == old(ghwr(c.bw).pos)
 //@ ensures [rearm] {C10} err == nil ==> gvcArmed(c.readTimeout) == context.Background()
 //@ ensures [not-eof] err != io.EOF
 //@ ensures [dict-released-only] c.msgReader.dict == old(c.msgReader.dict) || c.msgReader.dict == nil
@@ -299,7 +303,7 @@ package websocket
 
 //@ define RDFPm ghrd(mr.c.br).pos, mr.c.readHeaderBuf, mr.c.readControlBuf, chanstate(mr.c.readTimeout)
 //@ define WRFPm ghwr(mr.c.bw).pos, ghwr(mr.c.bw).out, ghwr(mr.c.bw).buffered, ghrd(specRand()).pos, mr.c.writeHeader, mr.c.writeHeaderBuf, bytes(mr.c.writeBuf), chanstate(mr.c.writeTimeout), chanstate(mr.c.writeFrameMu.ch), mr.c.closeSent
-//@ define CLFPm chanstate(mr.c.closed), chanstate(mr.c.readMu.ch), chanstate(mr.c.msgWriter.writeMu.ch), mr.c.br, mr.c.msgReader.flateReader, mr.c.msgReader.dict, mr.c.msgWriter.flateWriter
+//@ define CLFPm chanstate(mr.c.closed), chanstate(mr.c.readMu.ch), chanstate(mr.c.msgWriter.writeMu.ch), mr.c.br, mr.c.msgReader.flateReader, mr.c.msgReader.dict, mr.c.msgWriter.flateWriter, mr.c.closeReceived
 
 //@ func (*msgReader).read
 //@ tags C03 C04 C01
@@ -319,7 +323,7 @@ package websocket
 //@ func (*limitReader).Read
 //@ tags C08
 //@ requires lr.c != nil && connReady(lr.c) && !gvcHeld(lr.c.writeFrameMu.ch) && !gvcHeld(lr.c.msgWriter.writeMu.ch) && lr.c.msgReader.limitReader == lr && ghconn(lr.r) == lr.c && lr.r != nil
-//@ modifies bytes(p), lr.n, ghrd(lr.c.br).pos, lr.c.readHeaderBuf, lr.c.readControlBuf, chanstate(lr.c.readTimeout), ghwr(lr.c.bw).pos, ghwr(lr.c.bw).out, lr.c.writeHeader, lr.c.writeHeaderBuf, bytes(lr.c.writeBuf), chanstate(lr.c.writeTimeout), chanstate(lr.c.writeFrameMu.ch), lr.c.closeSent, ghwr(lr.c.bw).buffered, ghrd(specRand()).pos, chanstate(lr.c.readMu.ch), chanstate(lr.c.msgWriter.writeMu.ch), chanstate(lr.c.closed), lr.c.br, lr.c.msgReader.flateReader, lr.c.msgReader.dict, lr.c.msgWriter.flateWriter, lr.c.msgReader.fin, lr.c.msgReader.payloadLength, lr.c.msgReader.maskKey
+//@ modifies bytes(p), lr.n, ghrd(lr.c.br).pos, lr.c.readHeaderBuf, lr.c.readControlBuf, chanstate(lr.c.readTimeout), ghwr(lr.c.bw).pos, ghwr(lr.c.bw).out, lr.c.writeHeader, lr.c.writeHeaderBuf, bytes(lr.c.writeBuf), chanstate(lr.c.writeTimeout), chanstate(lr.c.writeFrameMu.ch), lr.c.closeSent, ghwr(lr.c.bw).buffered, ghrd(specRand()).pos, chanstate(lr.c.readMu.ch), chanstate(lr.c.msgWriter.writeMu.ch), chanstate(lr.c.closed), lr.c.br, lr.c.msgReader.flateReader, lr.c.msgReader.dict, lr.c.msgWriter.flateWriter, lr.c.closeReceived, lr.c.msgReader.fin, lr.c.msgReader.payloadLength, lr.c.msgReader.maskKey
 //@ ensures [n] 0 <= result0 && result0 <= len(p)
 //@ ensures [unlimited] old(lr.n) < 0 ==> lr.n == old(lr.n)
 //@ ensures [exhausted] old(lr.n) == 0 ==> result0 == 0 && result1 != nil && !errIs(result1, io.EOF) && !errIs(result1, io.ErrUnexpectedEOF)
@@ -641,3 +645,66 @@ package websocket
 //@ ensures [deregistered] {C15} !gvcMapHas(c.activePings, p) || old(gvcMapHas(c.activePings, p))
 //@ ensures [close-sent-kept] {C16} c.closeSent == old(c.closeSent)
 
+// ---------------------------------------------------------------------------
+// compress.go / accept.go / dial.go: permessage-deflate negotiation (C14)
+
+//@ func (CompressionMode).opts
+//@ tags C14
+//@ ensures [fresh] result != nil && gvcFresh(result)
+//@ ensures [nct] result.clientNoContextTakeover == specModeNCT(m) && result.serverNoContextTakeover == specModeNCT(m)
+
+//@ func acceptDeflate
+//@ tags C14
+//@ opt reveal=specOfferParamsOK,specOptsFor
+//@ ensures [ok-iff] result1 == specOfferParamsOK(ext.params)
+//@ ensures [declined] !result1 ==> result0 == nil
+//@ ensures [accepted] result1 ==> result0 != nil && gvcFresh(result0)
+//@ ensures [opts] result1 ==> specOptsFor(result0.clientNoContextTakeover, result0.serverNoContextTakeover, ext.params, specModeNCT(mode), specModeNCT(mode))
+//@ loop 1 decreases len(ext.params) - rangeindex
+//@ loop 1 modifies copts.clientNoContextTakeover, copts.serverNoContextTakeover
+//@ loop 1 invariant [idx] -1 <= rangeindex && rangeindex < len(ext.params)
+//@ loop 1 invariant [nn] copts != nil
+//@ loop 1 invariant [fresh] gvcFresh(copts)
+//@ loop 1 invariant [ok] forall(0, rangeindex+1, func(i int) bool { return specOfferParamOK(ext.params[i]) })
+//@ loop 1 invariant [asked] forall(0, rangeindex+1, func(i int) bool { return (ext.params[i] == "client_no_context_takeover" ==> copts.clientNoContextTakeover) && (ext.params[i] == "server_no_context_takeover" ==> copts.serverNoContextTakeover) })
+//@ loop 1 invariant [client-unasked] forall(0, rangeindex+1, func(i int) bool { return ext.params[i] != "client_no_context_takeover" }) ==> copts.clientNoContextTakeover == specModeNCT(mode)
+//@ loop 1 invariant [server-unasked] forall(0, rangeindex+1, func(i int) bool { return ext.params[i] != "server_no_context_takeover" }) ==> copts.serverNoContextTakeover == specModeNCT(mode)
+//@ loop 1 invariant [mono] (specModeNCT(mode) ==> copts.clientNoContextTakeover && copts.serverNoContextTakeover)
+
+//@ func selectDeflate
+//@ tags C14
+//@ ensures [disabled] mode == CompressionDisabled ==> !result1
+//@ ensures [declined] !result1 ==> result0 == nil && (mode == CompressionDisabled || forall(0, len(extensions), func(k int) bool { return !specOfferOK(extensions[k]) }))
+//@ ensures [first-acceptable] result1 ==> mode != CompressionDisabled && result0 != nil && exists(0, len(extensions), func(k int) bool { return specOfferOK(extensions[k]) && forall(0, k, func(j int) bool { return !specOfferOK(extensions[j]) }) && specOptsFor(result0.clientNoContextTakeover, result0.serverNoContextTakeover, extensions[k].params, specModeNCT(mode), specModeNCT(mode)) })
+//@ ensures [fresh] result1 ==> gvcFresh(result0)
+//@ loop 1 decreases len(extensions) - rangeindex
+//@ loop 1 invariant [idx] -1 <= rangeindex && rangeindex < len(extensions) && mode != CompressionDisabled
+//@ loop 1 invariant [none-so-far] forall(0, rangeindex+1, func(j int) bool { return !specOfferOK(extensions[j]) })
+
+//@ func websocketExtensions
+//@ assumed splitting of the Sec-WebSocket-Extensions lines at ',' and ';' (strings.Split/TrimSpace) is not verified; the result is described by uninterpreted functions of the header
+//@ ensures [count] len(result) == specExtCount(h) && specExtCount(h) >= 0
+//@ ensures [elems] forall(0, len(result), func(i int) bool { return result[i].name == specExtName(h, i) && len(result[i].params) == specExtParamCount(h, i) && forall(0, len(result[i].params), func(j int) bool { return result[i].params[j] == specExtParam(h, i, j) }) })
+//@ ensures [fresh] len(result) == 0 || gvcFreshSlice(result)
+
+//@ func verifyServerExtensions
+//@ tags C14 C13
+//@ opt reveal=specRespParamsOK,specOptsForH
+//@ ensures [none] specExtCount(h) == 0 ==> result0 == nil && result1 == nil
+//@ ensures [accept-iff] specExtCount(h) > 0 ==> ((result1 == nil) == (copts != nil && specExtCount(h) == 1 && specExtName(h, 0) == "permessage-deflate" && specRespParamsOK(h)))
+//@ ensures [rejected] result1 != nil ==> result0 == nil
+//@ ensures [accepted] specExtCount(h) > 0 && result1 == nil ==> result0 != nil && gvcFresh(result0) && specOptsForH(result0.clientNoContextTakeover, result0.serverNoContextTakeover, h, old(copts.clientNoContextTakeover), old(copts.serverNoContextTakeover))
+//@ loop 1 decreases len(ext.params) - rangeindex
+//@ loop 1 modifies copts.clientNoContextTakeover, copts.serverNoContextTakeover
+//@ loop 1 invariant [idx] -1 <= rangeindex && rangeindex < len(ext.params)
+//@ loop 1 invariant [fresh] copts != nil && gvcFresh(copts) && old(copts) != nil
+//@ loop 1 invariant [link] specExtCount(h) == 1 && ext.name == specExtName(h, 0) && ext.name == "permessage-deflate" && len(ext.params) == specExtParamCount(h, 0) && forall(0, len(ext.params), func(i int) bool { return ext.params[i] == specExtParam(h, 0, i) })
+//@ loop 1 invariant [ok] forall(0, rangeindex+1, func(i int) bool { return specResponseParamOK(ext.params[i]) })
+//@ loop 1 invariant [asked] forall(0, rangeindex+1, func(i int) bool { return (ext.params[i] == "client_no_context_takeover" ==> copts.clientNoContextTakeover) && (ext.params[i] == "server_no_context_takeover" ==> copts.serverNoContextTakeover) })
+//@ loop 1 invariant [client-unasked] forall(0, rangeindex+1, func(i int) bool { return ext.params[i] != "client_no_context_takeover" }) ==> copts.clientNoContextTakeover == old(copts.clientNoContextTakeover)
+//@ loop 1 invariant [server-unasked] forall(0, rangeindex+1, func(i int) bool { return ext.params[i] != "server_no_context_takeover" }) ==> copts.serverNoContextTakeover == old(copts.serverNoContextTakeover)
+
+//@ func (*compressionOptions).String
+//@ tags C14
+//@ requires copts != nil
+//@ ensures [params] result == specOptsHeader(copts.clientNoContextTakeover, copts.serverNoContextTakeover)
